@@ -337,6 +337,87 @@ def o_equality(spec):
     return {"classes": ["routes"], "nontrivial": len(terms) >= 2}
 
 
+
+# ---------------------------------------------------------------- shared operands (the same object used repeatedly)
+
+
+def shared_nodes(n_pool, depth):
+    leaf = st.integers(0, n_pool - 1).map(lambda i: {"ref": i})
+    if depth == 0:
+        return leaf
+    sub = shared_nodes(n_pool, depth - 1)
+    return st.one_of(
+        leaf,
+        st.builds(lambda op, a, b: {"op": op, "a": a, "b": b}, st.sampled_from(["+", "-", "*", "+"]), sub, sub),
+        st.builds(lambda a, k: {"op": "**", "a": a, "k": k}, sub, st.integers(0, 3)),
+        st.builds(lambda a: {"op": "simplify", "a": a}, sub),
+    )
+
+
+@st.composite
+def shared_cases(draw, tier):
+    pool = draw(st.lists(pgen.operands(max_q=3, numbers=False), min_size=1, max_size=3))
+    return {"pool": pool, "tree": draw(shared_nodes(len(pool), 3 if tier == "quick" else 4)),
+            "tree2": draw(shared_nodes(len(pool), 2))}
+
+
+def _subst(node, pool):
+    if "ref" in node:
+        return pool[node["ref"]]
+    out = dict(node)
+    out["a"] = _subst(node["a"], pool)
+    if "b" in node:
+        out["b"] = _subst(node["b"], pool)
+    return out
+
+
+def _eval_shared(node, objs):
+    if "ref" in node:
+        return objs[node["ref"]]
+    a = _eval_shared(node["a"], objs)
+    op = node["op"]
+    if op == "**":
+        return a ** node["k"]
+    if op == "simplify":
+        return a.simplify() if hasattr(a, "simplify") else a
+    b = _eval_shared(node["b"], objs)
+    return a + b if op == "+" else a - b if op == "-" else a * b
+
+
+def _strip_simplify(node):
+    if "ref" in node or "op" not in node:
+        return node
+    if node["op"] == "simplify":
+        return _strip_simplify(node["a"])
+    out = dict(node)
+    out["a"] = _strip_simplify(node["a"])
+    if "b" in node:
+        out["b"] = _strip_simplify(node["b"])
+    return out
+
+
+def o_shared(spec):
+    objs = [pgen.build_operand(o) for o in spec["pool"]]
+    canons = [pgen.canon_operand(o) for o in spec["pool"]]
+    uses = 0
+    # the same objects are used by three expressions in a row: an operation that modified an
+    # operand would make a later expression denote the wrong matrix
+    for tree in (spec["tree"], spec["tree2"], spec["tree"]):
+        full = _strip_simplify(_subst(tree, spec["pool"]))
+        R, bound, allow = eval_ref(full)
+        if not np.isfinite(bound) or bound > 1e30:
+            return {"inconclusive": "magnitude_overflow"}
+        L = must(lambda: _eval_shared(tree, objs), "operator arithmetic on shared operands")
+        d = pgen.canon_diff(pgen.canon_of(L), R)
+        tol = 1e-9 * bound + allow + 1e-300
+        drift = [i for i, (o, c) in enumerate(zip(objs, canons)) if pgen.canon_diff(pgen.canon_of(o), c) > 0]
+        require(d <= tol, lambda: f"expression over shared operands differs from matrix arithmetic by {d:.3g} > {tol:.3g}; got {L!r}" + (f" (operands {drift} were modified by an earlier operation)" if drift else ""))
+    def count(node):
+        return 1 if "ref" in node else count(node["a"]) + (count(node["b"]) if "b" in node else 0)
+    uses = count(spec["tree"])
+    return {"classes": ["reuse>=3"] if uses >= 3 else [], "nontrivial": uses > len(spec["pool"])}
+
+
 SUBCHECKS = [
     SubCheck("exhaustive_products", o_product, enumerate=_enum_products, exhaustive=True, shards=(4, 4),
              rule="all 4096 ordered pairs of 3-qubit Pauli strings vs np.kron matrices; non-trivial = a shared qubit with different letters"),
@@ -349,4 +430,6 @@ SUBCHECKS = [
     SubCheck("equality", o_equality, strategy=eq_cases, examples=(600, 3000), shards=(2, 8),
              rule="== on simplified operators: permuted copies equal, clearly different operators unequal, exact alternative routes equal"),
 ]
+SUBCHECKS.append(SubCheck("shared_operands", o_shared, strategy=shared_cases, examples=(500, 3000), shards=(2, 8),
+                          rule="expression DAGs in which the same operand object occurs several times (incl. x+x, x*x, simplify): result == matrix arithmetic and every operand still denotes its matrix; non-trivial = an operand used more than once"))
 SUBCHECKS[2].expected_classes = ["phase_table_used", "duplicate_terms", "zero_coefficient", "number_on_left", "empty_sum", "op/", "op**"]
